@@ -1,4 +1,4 @@
-; finding: property=C08 id=K08f class=error_raised_inside_native_higher_order_callback replay=findings/C08-K08f.scm an error raised inside the callback of a native higher-order built-in (transduce …) never reaches the enclosing handler: (with-handler (lambda (e) 0) (transduce (list 1) (mapping (lambda (x) (error "e8"))) (into-list))) ends the program with the error instead of yielding 0 (same with call-with-exception-handler, inside procedures, for primitive errors like (car 5)); the unwinding loop of the nested interpreter instance (call_with_instructions_and_reset_state) pops a frame and then returns Err early (`if self.pop_count == 0 { return Err(e) }`) without restoring ip/instructions/pop_count/sp of the enclosing instance, whose own loop then sees pop_count == 0 and gives up; with map / for-each / foldl / filter (written in Scheme) the handler runs
+; fixed: property=C08 1d871460 (was finding K08f: an error raised inside the callback of a native higher-order built-in (transduce …) never reached the enclosing handler: the unwind loop of the nested interpreter instance dropped a frame of the enclosing instance and returned without restoring pop_count); kept as regression programs
 (define tr '())
 (define (note x) (set! tr (cons x tr)) x)
 (define (f) (+ 1 (with-handler (lambda (e) (note 'handled) 0) (length (transduce (list 1 2) (mapping (lambda (x) (note x) (error "e8"))) (into-list))))))
